@@ -282,6 +282,7 @@ def _concrete_run(file, root, settings_vals, isdir_root):
 
     class O:
         path = P
+        curdir, pardir, sep = ".", "..", "/"
         makedirs = staticmethod(lambda *a, **k: None)
     cminx.Documenter, cminx.os, cminx.print = FD, O, (lambda *a, **k: None)
     try:
